@@ -84,6 +84,21 @@ def certRuleOK (shape : List Nat) (h : List Rat) (nq : Nat) (wq : Nat → Rat) (
 def cornerPt (dim q : Nat) : List Rat := (List.range dim).map fun a => (((q / 2 ^ a) % 2 : Nat) : Rat)
 def cornerW (dim : Nat) (_q : Nat) : Rat := 1 / ((2 ^ dim : Nat) : Rat)
 
+/-! ### `EMD.__call__`'s own arithmetic (src/darsia/measure/emd.py); pixels flattened row-major, `k = row·C + col` -/
+
+/-- `_sum(img)` -/
+def emdIntegral (n : Nat) (a : Nat → Rat) : Rat := sumTo n a
+
+/-- `_normalize(img)` : weights of the signature -/
+def emdWeight (n : Nat) (a : Nat → Rat) (k : Nat) : Rat := a k / emdIntegral n a
+
+/-- physical position stored in the signature for pixel `k`: `(col·del_x, row·del_y)` with `del_y, del_x = voxel_size` -/
+def emdPos (C : Nat) (dy dx : Rat) (k : Nat) : Rat × Rat := (((k % C : Nat) : Rat) * dx, ((k / C : Nat) : Rat) * dy)
+
+/-- `_img_to_sig(normalized, dx)` : rows `[weight, col·del_x, row·del_y]` in row-major pixel order -/
+def sigOf (R C : Nat) (dy dx : Rat) (a : Nat → Rat) : List (Rat × Rat × Rat) :=
+  (List.range (R * C)).map fun k => (emdWeight (R * C) a k, (emdPos C dy dx k).1, (emdPos C dy dx k).2)
+
 /-- `EMD.__call__` for a single-cell move of `value` by (`drow`, `dcol`) voxels: `cv2.EMD` returns the displacement
 length `√((dcol·dx)² + (drow·dy)²)` (total flow normalised to 1), rescaled by `integral · cell_volume`;
 returned here as the square of the result. -/
